@@ -1398,6 +1398,8 @@ def run_process(case) -> CaseResult:
 
             return run_hang(h, go(), chunker, what)
 
+        conn_ended = False
+
         if mode == 'run':
             res = outcome(pair.c.run('cmd', check=check, **kw), 'run')
         else:
@@ -1437,7 +1439,15 @@ def run_process(case) -> CaseResult:
                 return took
 
             for op in case.get('pre', []):
-                if op[0] == 'pumpall':
+                if op[0] == 'conn-end':
+                    labels.add('conn-end:' + op[1])
+                    conn_ended = True
+                    if op[1] == 'sclose':
+                        h.call(pair.s.close)
+                    else:
+                        h.cut_wire()
+                    h.pump(chunker)
+                elif op[0] == 'pumpall':
                     h.pump(chunker)
                     if nbytes > case['win'] and \
                             case['end'][0] in ('exit', 'signal'):
@@ -1567,6 +1577,28 @@ def run_process(case) -> CaseResult:
 
             gotv = unconv(enc, gotv)
 
+            if conn_ended and got == (None, None, None) and \
+                    wantv.startswith(gotv):
+                # nothing was reported for the command: what had been
+                # handed over so far is all the caller can be given
+                labels.add('conn-end:no-exit-info')
+                continue
+
+            if gotv != wantv and mode != 'run' and conn_ended and \
+                    wantv.startswith(gotv) and got == wexit:
+                # recorded finding: exit status reported, but what was still
+                # in the channel's receive buffer when the connection ended
+                # is gone
+                raise Violation(
+                    'output', '%s reported exit info %r with %d of %d units '
+                    'of %s: all of it had arrived before the connection '
+                    'ended (%s), the part not yet handed to the stream '
+                    '(window %d) was discarded' %
+                    (mode, got, len(gotv), len(wantv), name,
+                     [o for o in case['pre'] if o[0] == 'conn-end'][0][1],
+                     case['win']),
+                    'output:discarded-at-connection-end')
+
             if gotv != wantv:
                 raise Violation(
                     'output', '%s: %s of %s has %d units, the server wrote '
@@ -1639,6 +1671,13 @@ def process_strategy(tier: str):
 
         if client != 'run' and draw(st.integers(0, 2)) == 0:
             pre = [['pumpall']] + pre
+
+        if client in ('wait', 'communicate') and end[0] != 'hang' and \
+                not inp and draw(st.integers(0, 7)) == 0:
+            # the command is over and everything it wrote has reached this
+            # end; now the CONNECTION goes away, before the application has
+            # read (one case in eight: a recorded finding lives here)
+            pre = [['pumpall'], ['conn-end', draw(pick(['sclose', 'cut']))]]
 
         return {'enc': enc, 'win': win, 'pkt': pkt, 'out': out, 'err': err,
                 'script': script, 'end': end, 'client': client,
@@ -2950,7 +2989,7 @@ FAMILIES = [
                              'client-run', 'client-wait',
                              'client-communicate', 'timeout', 'input-checked',
                              'merge-stderr', 'pre-read', 'collect',
-                             'end-signal', 'end-close']},
+                             'end-signal', 'end-close', 'known-finding']},
            timeout_is_violation=True, case_timeout=120),
     Family('redirect', run_redirect, strategy=redirect_strategy,
            budget={'quick': 320, 'thorough': 5000},
